@@ -241,35 +241,92 @@ theorem minmax_lcp (sa sb : List Name) :
       subst this
       simp only [h1, if_false]
 
-/-- On clean, distinct names the two tests of the inner loop say: "the previous name is a proper
-segment-prefix of the current one". In particular `commonpath` does not raise. -/
-theorem actE_clean {n p : Name} (hn : cleanB n = true) (hp : cleanB p = true) (hne : p ≠ n) :
-    actE n p = .ok (descB p n) := by
+/-! ### names with one trailing `/` -/
+
+theorem splitOn_snoc_sep {α : Type} [DecidableEq α] (sep : α) (m : List α) :
+    splitOn sep (m ++ [sep]) = splitOn sep m ++ [[]] := by
+  induction m with
+  | nil => simp [splitOn]
+  | cons c t ih =>
+    simp only [List.cons_append, splitOn]
+    split
+    · rw [ih]; rfl
+    · rw [ih]
+      cases h : splitOn sep t with
+      | nil => exact absurd h (splitOn_ne_nil sep t)
+      | cons a r => rfl
+
+/-- The shape of an admissible name: a clean base `b`, the name being `b` or `b/`. -/
+structure Shape (n b : Name) : Prop where
+  base : cleanB b = true
+  name : n = b ∨ n = b ++ ['/']
+
+theorem shape_of_cleanTB {n : Name} (h : cleanTB n = true) : ∃ b, Shape n b := by
+  unfold cleanTB at h
+  rw [Bool.or_eq_true] at h
+  rcases h with h | h
+  · exact ⟨n, h, Or.inl rfl⟩
+  · split at h
+    · rename_i r hr
+      refine ⟨r.reverse, h, Or.inr ?_⟩
+      have := congrArg List.reverse hr
+      simpa using this
+    · cases h
+
+theorem nil_not_mem_of_clean {b : Name} (h : cleanB b = true) : [] ∉ splitOn '/' b := by
+  intro hmem
+  have := (List.all_eq_true.mp h) [] hmem
+  simp at this
+
+theorem Shape.segs {n b : Name} (h : Shape n b) : segments n = splitOn '/' b := by
+  rcases h.name with rfl | rfl
+  · exact segments_clean h.base
+  · unfold segments
+    rw [splitOn_snoc_sep, List.filter_append]
+    have h1 := segments_clean h.base
+    unfold segments at h1
+    rw [h1]; simp
+
+theorem Shape.notAbs {n b : Name} (h : Shape n b) : isAbs n = false := by
+  have hb := isAbs_clean h.base
+  have hne := ne_nil_of_clean h.base
+  rcases h.name with rfl | rfl
+  · exact hb
+  · cases b with
+    | nil => exact absurd rfl hne
+    | cons c t => simpa [Dedup.isAbs] using hb
+
+theorem Shape.split {n b : Name} (h : Shape n b) :
+    splitOn '/' n = splitOn '/' b ∨ splitOn '/' n = splitOn '/' b ++ [[]] := by
+  rcases h.name with rfl | rfl
+  · exact Or.inl rfl
+  · exact Or.inr (splitOn_snoc_sep '/' b)
+
+/-- The two tests of the inner loop, on admissible names, in terms of the clean bases. -/
+theorem actE_shape {n p bn bp : Name} (hn : Shape n bn) (hp : Shape p bp) :
+    actE n p = .ok (!(join '/' (lcp (splitOn '/' bn) (splitOn '/' bp)) == []) &&
+      p == join '/' (lcp (splitOn '/' bn) (splitOn '/' bp))) := by
   unfold actE commonpath
-  simp only [isAbs_clean hn, isAbs_clean hp, bne_self_eq_false, Bool.false_eq_true, if_false,
-    segments_clean hn, segments_clean hp, minmax_lcp, List.nil_append]
-  congr 1
-  by_cases hpre : splitOn '/' p <+: splitOn '/' n
-  · have hlen : (splitOn '/' p).length < (splitOn '/' n).length := by
-      rcases Nat.lt_or_ge (splitOn '/' p).length (splitOn '/' n).length with h | h
-      · exact h
-      · exact absurd (splitOn_injective '/' (hpre.eq_of_length_le h)) hne
-    have hd : descB p n = true := by rw [descB, properPrefix_iff]; exact ⟨hpre, hlen⟩
-    rw [hd, lcp_of_prefix hpre, join_splitOn]
-    simp [ne_nil_of_clean hp]
-  · have hd : descB p n = false := by
-      cases h : descB p n
-      · rfl
-      · rw [descB, properPrefix_iff] at h; exact absurd h.1 hpre
-    rw [hd]
-    by_cases hnil : lcp (splitOn '/' n) (splitOn '/' p) = []
+  simp only [hn.notAbs, hp.notAbs, bne_self_eq_false, Bool.false_eq_true, if_false,
+    hn.segs, hp.segs, minmax_lcp, List.nil_append]
+
+/-- `p = join (lcp sn sp)` (non-empty) exactly when the segments of `p` are a prefix of `sn`. -/
+theorem test_eq_prefix {bn p : Name} (hp : cleanB p = true) :
+    (!(join '/' (lcp (splitOn '/' bn) (splitOn '/' p)) == []) &&
+      p == join '/' (lcp (splitOn '/' bn) (splitOn '/' p)))
+      = decide (splitOn '/' p <+: splitOn '/' bn) := by
+  by_cases hpre : splitOn '/' p <+: splitOn '/' bn
+  · rw [lcp_of_prefix hpre, join_splitOn]
+    simp [ne_nil_of_clean hp, hpre]
+  · simp only [hpre, decide_false]
+    by_cases hnil : lcp (splitOn '/' bn) (splitOn '/' p) = []
     · simp [hnil, join]
-    · have hsplit : splitOn '/' (join '/' (lcp (splitOn '/' n) (splitOn '/' p)))
-          = lcp (splitOn '/' n) (splitOn '/' p) := by
+    · have hsplit : splitOn '/' (join '/' (lcp (splitOn '/' bn) (splitOn '/' p)))
+          = lcp (splitOn '/' bn) (splitOn '/' p) := by
         apply splitOn_join _ _ hnil
         intro s hs
-        exact sep_not_mem_splitOn '/' n s ((lcp_prefix_left _ _).subset hs)
-      have : p ≠ join '/' (lcp (splitOn '/' n) (splitOn '/' p)) := by
+        exact sep_not_mem_splitOn '/' bn s ((lcp_prefix_left _ _).subset hs)
+      have : p ≠ join '/' (lcp (splitOn '/' bn) (splitOn '/' p)) := by
         intro hEq
         apply hpre
         have := congrArg (splitOn '/') hEq
@@ -278,7 +335,88 @@ theorem actE_clean {n p : Name} (hn : cleanB n = true) (hp : cleanB p = true) (h
         exact lcp_prefix_left _ _
       simp [this]
 
-/-- The model of `deduplicated_taxa` on strictly sorted clean names: no exception, and the pure
+/-- A name with a trailing `/` is never equal to a joined list of non-empty segments. -/
+theorem test_trailing_false {bn bp : Name} (hbn : cleanB bn = true) :
+    (!(join '/' (lcp (splitOn '/' bn) (splitOn '/' bp)) == []) &&
+      (bp ++ ['/']) == join '/' (lcp (splitOn '/' bn) (splitOn '/' bp))) = false := by
+  by_cases hnil : lcp (splitOn '/' bn) (splitOn '/' bp) = []
+  · simp [hnil, join]
+  · have hsplit : splitOn '/' (join '/' (lcp (splitOn '/' bn) (splitOn '/' bp)))
+        = lcp (splitOn '/' bn) (splitOn '/' bp) := by
+      apply splitOn_join _ _ hnil
+      intro s hs
+      exact sep_not_mem_splitOn '/' bn s ((lcp_prefix_left _ _).subset hs)
+    have : bp ++ ['/'] ≠ join '/' (lcp (splitOn '/' bn) (splitOn '/' bp)) := by
+      intro hEq
+      have := congrArg (splitOn '/') hEq
+      rw [hsplit, splitOn_snoc_sep] at this
+      have hmem : ([] : Name) ∈ lcp (splitOn '/' bn) (splitOn '/' bp) := by rw [← this]; simp
+      exact nil_not_mem_of_clean hbn ((lcp_prefix_left _ _).subset hmem)
+    simp [this]
+
+/-- On admissible, distinct names the two tests of the inner loop say: "the previous name is a
+proper segment-prefix of the current one" (a trailing `/` counts as a last, empty segment). In
+particular `commonpath` does not raise. -/
+theorem actE_clean {n p : Name} (hn : cleanTB n = true) (hp : cleanTB p = true) (hne : p ≠ n) :
+    actE n p = .ok (descB p n) := by
+  obtain ⟨bn, hsn⟩ := shape_of_cleanTB hn
+  obtain ⟨bp, hsp⟩ := shape_of_cleanTB hp
+  rw [actE_shape hsn hsp]
+  congr 1
+  have hbn0 := nil_not_mem_of_clean hsn.base
+  rcases hsp.name with hpe | hpe
+  · -- the previous name is clean
+    subst hpe
+    rw [test_eq_prefix hsp.base]
+    rcases hsn.name with hne' | hne'
+    · subst hne'
+      -- both clean: prefix and different, i.e. proper prefix
+      by_cases hpre : splitOn '/' p <+: splitOn '/' n
+      · have hlen : (splitOn '/' p).length < (splitOn '/' n).length := by
+          rcases Nat.lt_or_ge (splitOn '/' p).length (splitOn '/' n).length with h | h
+          · exact h
+          · exact absurd (splitOn_injective '/' (hpre.eq_of_length_le h)) hne
+        have hd : descB p n = true := by rw [descB, properPrefix_iff]; exact ⟨hpre, hlen⟩
+        simp [hd, hpre]
+      · have hd : descB p n = false := by
+          cases h : descB p n
+          · rfl
+          · rw [descB, properPrefix_iff] at h; exact absurd h.1 hpre
+        simp [hd, hpre]
+    · subst hne'
+      -- current name `bn/`: its segment list is `splitOn bn ++ [[]]`
+      by_cases hpre : splitOn '/' p <+: splitOn '/' bn
+      · have hd : descB p (bn ++ ['/']) = true := by
+          rw [descB, properPrefix_iff, splitOn_snoc_sep]
+          exact ⟨hpre.trans (List.prefix_append _ _), by
+            have := hpre.length_le; simp; omega⟩
+        simp [hd, hpre]
+      · have hd : descB p (bn ++ ['/']) = false := by
+          cases h : descB p (bn ++ ['/'])
+          · rfl
+          · rw [descB, properPrefix_iff, splitOn_snoc_sep] at h
+            exfalso; apply hpre
+            exact List.prefix_of_prefix_length_le h.1 (List.prefix_append _ _) (by
+              have := h.2; simp at this; omega)
+        simp [hd, hpre]
+  · -- the previous name has a trailing `/`: never an ancestor
+    subst hpe
+    rw [test_trailing_false hsn.base]
+    symm
+    cases h : descB (bp ++ ['/']) n
+    · rfl
+    · exfalso
+      rw [descB, properPrefix_iff, splitOn_snoc_sep] at h
+      rcases hsn.split with hs | hs
+      · rw [hs] at h
+        exact hbn0 (h.1.subset (by simp))
+      · rw [hs] at h
+        have : splitOn '/' bp ++ [[]] <+: splitOn '/' bn :=
+          List.prefix_of_prefix_length_le h.1 (List.prefix_append _ _) (by
+            have := h.2; simp at this ⊢; omega)
+        exact hbn0 (this.subset (by simp))
+
+/-- The model of `deduplicated_taxa` on strictly sorted admissible names: no exception, and the pure
 loops with the test "proper segment-prefix". -/
 theorem actE_pairwise {names : List Name} (hs : StrictSorted names) (hc : CleanNames names) :
     names.Pairwise fun p n => actE n p = .ok (DedupLift.actOf descB n p) := by
